@@ -193,17 +193,43 @@ def returns_previous(f, role):
                 if "param" in str(args[1]):
                     return True, ""
                 return False, "exchange() does not install the parameter"
-    # idiom 2
+    # idiom 2: save the old value, assign the new one, return the saved one - through any reference alias of
+    # the reporter object and any std::move / copy wrapping
+    def unwrap(t):
+        while isinstance(t, list) and t:
+            if t[0] == "cast":
+                t = t[2]
+            elif t[0] == "ctor" and len(t) > 3 and len(t[3]) == 1:
+                t = t[3][0]
+            elif t[0] == "call" and erase(t[2]) in ("std::move", "std::forward") and len(t[3]) == 1:
+                t = t[3][0]
+            else:
+                break
+        return t
+
+    aliases = set()
+
+    def is_obj(t):
+        t = unwrap(t)
+        if lib.tree_name(t) == A[role]:
+            return True
+        return isinstance(t, list) and t[:1] == ["var"] and t[1] in aliases
+
     saved = None
     assigned = False
-    for b, e in f.events():
-        if e["e"] == "decl" and e.get("init") is not None and A[role] in str(e["init"]) and not assigned:
-            saved = e["var"]
-        if e["e"] in ("call",) and e.get("op") == "=" and lib.tree_name(e.get("recv")) == A[role]:
+    for b, e in (f.flow_events() if hasattr(f, "flow_events") else f.events()):
+        if e["e"] == "decl" and e.get("init") is not None and is_obj(e["init"]):
+            if (e.get("type") or "").rstrip().endswith("&"):
+                aliases.add(e["var"])
+            elif not assigned:
+                saved = e["var"]
+        if e["e"] == "call" and e.get("op") == "=" and is_obj(e.get("recv")):
             if saved is None:
                 return False, "reporter object overwritten before its old value was saved"
+            if "param" not in str(e.get("args")):
+                return False, "the reporter object is not assigned the parameter"
             assigned = True
-    if saved is not None and assigned and x is not None and ("var", saved) == tuple(strip_to_var(x)[:2]):
+    if saved is not None and assigned and x is not None and ("['var', %d," % saved) in str(x):
         return True, ""
     # the two-argument overload delegates to the one-argument one for the violation reporter
     if role == "reporter_obj":
